@@ -2,7 +2,10 @@
 
 NOTE_COMMON = ("Trusted base: CPython's ast, the idiom lists in /verif/rules, python dict/enum semantics. "
                "Decides the named structural clauses for every path/input at once; it does not decide the "
-               "behavioural whole - see the 'Not decided' paragraph of the DESIGN section.")
+               "behavioural whole - see the 'Not decided' paragraph of the DESIGN section. Before the rules run, the parsed "
+               "sources are normalised (sa/normalize*.py: new helpers inlined, new constants folded, renames recognised, branch "
+               "flags threaded - each step behaviour-preserving, listed in the evidence); clauses of sibling properties that are "
+               "necessary conditions of this one are evaluated too (sa/shared.py).")
 
 
 def register(claim):
